@@ -101,6 +101,15 @@ def _eq_alphabet(seed):
     add("rg23b", "ift.RGSpace((2, 3), distances=(%r, %r))" % (a1, a0))
     add("rg23ah", "ift.RGSpace((2, 3), distances=(%r, %r), harmonic=True)" % (a0, a1))
     add("rg23ah", "ift.RGSpace((2, 3), distances=[%r, %r], harmonic=True)" % (a0, a1))
+    # harmonic grids: a scalar distance and a sequence of equal distances describe the same grid (values for which
+    # differently associated floating-point formulas round differently)
+    for n, d in ((10, 0.3), (3, 0.1), (7, 0.7), (6, 1.1), (12, 0.3)):
+        g = "rg%dh_d%s" % (n, d)
+        add(g, "ift.RGSpace((%d,), distances=%r, harmonic=True)" % (n, d))
+        add(g, "ift.RGSpace((%d,), distances=(%r,), harmonic=True)" % (n, d))
+    add("rg75h_d0.3", "ift.RGSpace((7, 5), distances=0.3, harmonic=True)")
+    add("rg75h_d0.3", "ift.RGSpace((7, 5), distances=(0.3, 0.3), harmonic=True)")
+    add("rg75h_d0.3", "ift.RGSpace((7, 5), distances=np.array([0.3, 0.3]), harmonic=True)")
     add("lm2", "ift.LMSpace(2)")
     add("lm2", "ift.LMSpace(2, 2)")
     add("lm2", "ift.LMSpace(2.0, mmax=None)")
